@@ -444,7 +444,7 @@ func (e *MetaCDC) Create(req *request.CreateRequest) (resp *request.CreateRespon
 	revertCollectionNames := func() {
 		e.collectionNames.Lock()
 		defer e.collectionNames.Unlock()
-		e.collectionNames.excludeData[uKey] = lo.Without(e.collectionNames.excludeData[uKey], excludeCollectionNames...)
+		e.collectionNames.excludeData[uKey] = e.getExcludeCollectionNames(uKey, taskID)
 		e.collectionNames.data[uKey] = lo.Without(e.collectionNames.data[uKey], newCollectionNames...)
 		if req.ExtraInfo.EnableUserRole {
 			// the duplicate check only passes when no other task of the target has the flag
@@ -599,6 +599,21 @@ func (e *MetaCDC) Create(req *request.CreateRequest) (resp *request.CreateRespon
 	}
 
 	return &request.CreateResponse{TaskID: info.TaskID}, nil
+}
+
+// getExcludeCollectionNames returns the collection names that the tasks of the target, except the given task,
+// exclude. A name can be excluded by more than one task, so it can't be simply removed when one of them is gone.
+func (e *MetaCDC) getExcludeCollectionNames(uKey string, exceptTaskID string) []string {
+	e.cdcTasks.RLock()
+	defer e.cdcTasks.RUnlock()
+	var excludeCollectionNames []string
+	for _, taskInfo := range e.cdcTasks.data {
+		if taskInfo.TaskID == exceptTaskID || getTaskUniqueIDFromInfo(taskInfo) != uKey {
+			continue
+		}
+		excludeCollectionNames = append(excludeCollectionNames, taskInfo.ExcludeCollections...)
+	}
+	return lo.Uniq(excludeCollectionNames)
 }
 
 func (e *MetaCDC) getRPCChannelName(channelInfo model.ChannelInfo) string {
@@ -1463,7 +1478,7 @@ func (e *MetaCDC) delete(taskID string) error {
 	uKey := getTaskUniqueIDFromInfo(info)
 	collectionNames := GetCollectionNamesFromTaskInfo(info)
 	e.collectionNames.Lock()
-	e.collectionNames.excludeData[uKey] = lo.Without(e.collectionNames.excludeData[uKey], info.ExcludeCollections...)
+	e.collectionNames.excludeData[uKey] = e.getExcludeCollectionNames(uKey, taskID)
 	e.collectionNames.data[uKey] = lo.Without(e.collectionNames.data[uKey], collectionNames...)
 	e.collectionNames.Unlock()
 
